@@ -231,7 +231,9 @@ class Unit:
         rec.evaluations += 1
         try:
             self.check(case, rec)
-        except Exception as e:  # an exception out of the code under test
+        except (Exception, SystemExit) as e:  # an exception out of the code under test
+            # SystemExit too: a command-line entry point that exits inside a pool worker would
+            # otherwise kill the worker silently and leave the pool waiting for ever
             rec.violation(
                 self.exc_fkey(case, e),
                 "unexpected %s: %s\n%s"
